@@ -559,7 +559,7 @@ func (d *dporState) addRaces(s *verifrt.Sched) {
 					f.hints = map[int][]int{}
 				}
 				f.hints[c] = hint
-			} else {
+			} else if os.Getenv("VERIF_NO_FALLBACK") == "" {
 				for ai := range f.alts {
 					f.backtrack[ai] = true
 				}
